@@ -584,7 +584,52 @@ def check_current_bounds(ctx: Ctx) -> None:
     c02.check_affine_ops(_Prefixed(ctx, "14.9-image-map/"), view)
 
 
+def check_fullfact_columns(ctx: Ctx) -> None:
+    """14.10: the OpenTURNS full factorial design is generated for the variables that have intermediate levels only; its
+    columns go back to the positions of THOSE variables (the others sit at the centre): the positions are collected
+    with the levels, under the same filter, and the design is stored at them."""
+    from gv.props.shared import accumulated_lists, branch_conditions
+
+    rel = "algos/doe/openturns/_algos/ot_full_factorial_doe.py"
+    cls = next(iter(c for c in ctx.index.module(rel).classes.values() if "_generate_fullfact_from_levels" in c.methods), None)
+    ctx.need(cls is not None, "OT full factorial: _generate_fullfact_from_levels not found")
+    f = cls.methods["_generate_fullfact_from_levels"]
+    con = cname(rel, cls.name, "_generate_fullfact_from_levels")
+    cfg = cfg_of(f)
+    gens = [c for c in walk_body(f) if isinstance(c, ast.Call) and last_attr(c) == "generate" and isinstance(c.func, ast.Attribute) and isinstance(c.func.value, ast.Call) and last_attr(c.func.value) == "Box"]
+    ctx.need(len(gens) == 1 and gens[0].func.value.args, "OT full factorial: Box(<levels>).generate() not found")
+    kept = dotted(gens[0].func.value.args[0])
+    lists = accumulated_lists(f)
+    lv = [r for r in lists if r["name"] == kept]
+    ctx.need(len(lv) == 1, "OT full factorial: the list of the levels handed to Box was not recognised")
+    if not lv[0]["conditional"]:
+        return  # every variable has its column in the design: nothing to put back
+
+    def filt(r):
+        n_ = r["node"]
+        if isinstance(n_, ast.Call):
+            return sorted(norm_stmt(cfg.ast[t].test) + f"={v}" for t, v in branch_conditions(cfg, cfg.node_of(n_)) if cfg.kind[t] == "test")
+        return sorted(norm_stmt(i_) for i_ in n_.value.generators[0].ifs)
+
+    # the positions: the counter of the same enumeration, kept under the same filter
+    def is_position(r):
+        it, tg = r["iter"], r["target"]
+        return isinstance(it, ast.Call) and dotted(it.func) == "enumerate" and isinstance(tg, ast.Tuple) and len(tg.elts) == 2 and all(dotted(e_) == dotted(tg.elts[0]) for e_ in r["elements"]) and norm_stmt(it) == norm_stmt(lv[0]["iter"]) and filt(r) == filt(lv[0])
+
+    pos = [r["name"] for r in lists if r["name"] != kept and is_position(r)]
+    stores = [s_ for s_ in stmts_of(f) if isinstance(s_, ast.Assign) and isinstance(s_.targets[0], ast.Subscript) and isinstance(s_.targets[0].slice, ast.Tuple) and len(s_.targets[0].slice.elts) == 2 and isinstance(s_.targets[0].slice.elts[0], ast.Slice) and dotted(s_.targets[0].slice.elts[1]) in pos]
+    ok = bool(pos) and len(stores) == 1
+    if ok:
+        vals = unfolded(f, stores[0], get=lambda s_: s_.value) or [stores[0].value]
+        ok = all(any(x is not None and isinstance(x, ast.Call) and last_attr(x) == "generate" for x in ast.walk(v_)) for v_ in vals)
+        holder = dotted(stores[0].targets[0].value)
+        rets = [r for r in stmts_of(f) if isinstance(r, ast.Return) and cfg.reachable(cfg.node_of(stores[0]), cfg.node_of(r))]
+        ok = ok and bool(rets) and all(dotted(r.value) == holder for r in rets)
+    ctx.ob("14.10-fullfact-columns", con, bool(ok), "some variables have no column in the OpenTURNS design (levels filtered out): the design must be stored at the positions of the variables that have one (`doe[:, <positions kept with the levels>] = <design>`); appended side by side, the centre columns land on the wrong variables", node=(stores or gens)[0], stmt="design columns put back at the positions of their variables")
+
+
 def run(ctx: Ctx) -> None:
+    check_fullfact_columns(ctx)
     check_sobol_count(ctx)
     check_current_bounds(ctx)
     check_custom_order(ctx)
